@@ -19,3 +19,15 @@ void ctlLeak12Set(void *_dst, uint32_t offset, uint16_t val) { uint32_t *dst = _
     a = (uint32_t)both; b = (uint32_t)(both >> 32); memcpy(&out[0], &a, 4); memcpy(&out[1], &b, 4); }
 void ctlLeak12SetHalf(void *d, uint32_t o) { ctlLeak12Set(d, o, ctlLeak12Get(d, o) / 2); }
 void ctlLeak12SetIncr(void *d, uint32_t o, int64_t by) { ctlLeak12Set(d, o, (uint16_t)(ctlLeak12Get(d, o) + by)); }
+/* P4: the bit position is formed in 32-bit arithmetic before it is widened */
+uint16_t ctlWrap12Get(const void *src_, uint32_t offset) { const uint32_t *src = src_; uint64_t sb = (uint64_t)(offset * 12); const uint32_t *in = &src[sb / 32]; uint32_t s = sb % 32, avail = 32 - s;
+    if (12 <= avail) { uint32_t c; memcpy(&c, in, 4); return (c >> s) & 0xfff; }
+    uint32_t a, b; memcpy(&a, &in[0], 4); memcpy(&b, &in[1], 4); return (uint16_t)((a >> s) | (((uint64_t)b << avail) & 0xfff)); }
+void ctlWrap12Set(void *_dst, uint32_t offset, uint16_t val) {
+    uint32_t *dst = (uint32_t *)_dst; uint64_t sb = (uint64_t)(offset * 12); uint32_t *out = &dst[sb / 32]; uint32_t s = sb % 32, avail = 32 - s;
+    if (12 <= avail) { uint32_t c; memcpy(&c, out, 4); c = (uint32_t)((c & ~((uint64_t)0xfff << s)) | ((uint64_t)val << s)); memcpy(out, &c, 4); }
+    else { uint64_t low = (uint64_t)val << s, high = (uint64_t)val >> avail; uint32_t a, b; memcpy(&a, &out[0], 4); memcpy(&b, &out[1], 4);
+           a = (uint32_t)((a & ~((uint64_t)0xfff << s)) | low); b = (uint32_t)((b & ~((uint64_t)0xfff >> avail)) | high); memcpy(&out[0], &a, 4); memcpy(&out[1], &b, 4); }
+}
+void ctlWrap12SetHalf(void *d, uint32_t o) { ctlWrap12Set(d, o, ctlWrap12Get(d, o) / 2); }
+void ctlWrap12SetIncr(void *d, uint32_t o, int64_t by) { ctlWrap12Set(d, o, (uint16_t)(ctlWrap12Get(d, o) + by)); }
